@@ -261,3 +261,20 @@ impl<T: Debug + Clone + SegtreeItem<M>, M: Debug> Segtree<T, M> {
         format!("{:?}", (0..self.n).map(|i| self.ask(i, i)).collect::<Vec<_>>())
     }
 }
+
+#[cfg(feature = "verif")]
+impl<T: Clone, M> Segtree<T, M> {
+    /// verification hook: read-only view of the node array and the logical size
+    pub fn verif_nodes(&self) -> (&[T], usize) {
+        (&self.data, self.n)
+    }
+
+    /// verification hook: copy of the whole tree (to run several queries from one state)
+    pub fn verif_clone(&self) -> Self {
+        Self {
+            n: self.n,
+            data: self.data.clone(),
+            phantom: std::marker::PhantomData,
+        }
+    }
+}
